@@ -1,0 +1,21 @@
+//go:build verif
+
+// Accessors for the verification harness in /verif (build tag "verif").
+package server
+
+import (
+	"net"
+
+	"git.sr.ht/~adrian-blx/psa-dhcp/lib/dhcpmsg"
+	"git.sr.ht/~adrian-blx/psa-dhcp/lib/server/ipdb"
+)
+
+type Server = server
+
+func (sx *server) VerifHandleMsg(src, dst net.IP, msg dhcpmsg.Message) { sx.handleMsg(src, dst, msg) }
+func (sx *server) VerifGetDuid(hw net.HardwareAddr, cid []byte) []byte {
+	return []byte(sx.getDuid(hw, cid))
+}
+func (sx *server) VerifDhcpOptions(hw net.HardwareAddr) []dhcpmsg.DHCPOpt { return sx.dhcpOptions(hw) }
+func (sx *server) VerifIPDB() *ipdb.IPDB                                  { return sx.ipdb }
+func (sx *server) VerifSelfIP() net.IP                                    { return sx.selfIP }
